@@ -3,6 +3,7 @@
 package tcell
 
 import (
+	"github.com/gdamore/tcell/v2/terminfo"
 	"errors"
 
 	gencoding "github.com/gdamore/encoding"
@@ -191,4 +192,64 @@ func H17_real() {
 		vsymAssert(b != 0x1a && (b < 0x80 || !ascii), "never an encoder substitution byte or raw UTF-8")
 	}
 	vsymAssert(t.CanDisplay(r, true) == representable || mainc != r, "CanDisplay agrees with what is drawn")
+}
+
+// h17StripPad: terminfo(5) padding ($<digits[.digits][*][/]>) removed; anything else verbatim.
+func h17StripPad(s string) string {
+	var out []byte
+	for i := 0; i < len(s); i++ {
+		if s[i] == '$' && i+1 < len(s) && s[i+1] == '<' {
+			j := i + 2
+			for j < len(s) && s[j] != '>' {
+				j++
+			}
+			if j < len(s) {
+				i = j
+				continue
+			}
+		}
+		out = append(out, s[i])
+	}
+	return string(out)
+}
+
+// H17_acs: on every built-in description with an alternate character set, in a locale
+// that cannot encode the line-drawing runes, each ACS rune is written as exactly
+// enter-ACS, the glyph byte, exit-ACS - with the terminfo padding of those strings
+// removed, never as literal "$<2>" text - and CanDisplay reports it displayable.
+func H17_acs() {
+	ents := terminfo.VerifEntries()
+	ti := ents[vsymChoice("term", len(ents))]
+	vsymNote("term", ti.Name)
+	t := hNewTScreen(ti.Name)
+	if ti.AltChars == "" || ti.EnterAcs == "" {
+		vsymAssert(ti.AltChars != "" || len(t.acs) == 0, "a description without alternate characters yields no ACS glyphs: "+ti.Name)
+		return
+	}
+	t.charset = "US-ASCII"
+	t.encoder = gencoding.ASCII.NewEncoder()
+	t.tty = newHTty(3, 1)
+	t.cells.Resize(3, 1)
+	t.w, t.h = 3, 1
+	t.fallback = map[rune]string{}
+	acs := ti.AltChars
+	for len(acs) > 2 {
+		src, glyph := acs[0], acs[1]
+		acs = acs[2:]
+		r, ok := vtACSNames[src]
+		if !ok || r < 0x80 {
+			continue
+		}
+		t.cells.SetContent(0, 0, r, nil, StyleDefault)
+		t.buffering = true
+		t.buf.Reset()
+		t.cx, t.cy = 0, 0
+		t.style, t.curstyle = StyleDefault, StyleDefault
+		t.cells.SetDirty(0, 0, true)
+		t.drawCell(0, 0)
+		out := string(t.buf.Bytes())
+		want := h17StripPad(ti.EnterAcs) + string([]byte{glyph}) + h17StripPad(ti.ExitAcs)
+		vsymAssert(out == want, "an ACS rune is written as enter-ACS, glyph, exit-ACS without terminfo padding residue: "+ti.Name)
+		vsymAssert(t.CanDisplay(r, false), "CanDisplay is true for a rune drawn as an ACS glyph: "+ti.Name)
+	}
 }
